@@ -49,6 +49,8 @@ func main() {
 		os.Exit(stream(os.Args[2:]))
 	case "sha2pc":
 		os.Exit(sha2pcMode(os.Args[2:]))
+	case "range":
+		os.Exit(otRange(os.Args[2:]))
 	default:
 		fmt.Fprintf(os.Stderr, "unknown mode %q\n", os.Args[1])
 		os.Exit(2)
